@@ -174,18 +174,21 @@ public:
     void setParticlePositions(const double pp[]) {
         std::copy_n(pp, num_dimensions * num_particles, particle_positions.begin());
         positions_initialized = true;
+        cache_initialized = false; // the cached values and domain flags belong to the old positions
     }
     //! \brief Set the particle positions, vector variant.
     void setParticlePositions(const std::vector<double> &pp) {
         checkVarSize("ParticleSwarmState::setParticlePositions", "particle position", pp.size(), num_dimensions * num_particles);
         particle_positions = pp;
         positions_initialized = true;
+        cache_initialized = false; // the cached values and domain flags belong to the old positions
     }
     //! \brief Set the particle positions, with a move.
     void setParticlePositions(std::vector<double> &&pp) {
         checkVarSize("ParticleSwarmState::setParticlePositions", "particle positions", pp.size(), num_dimensions * num_particles);
         particle_positions = std::move(pp);
         positions_initialized = true;
+        cache_initialized = false; // the cached values and domain flags belong to the old positions
     }
     //! \brief Set the particle velocities.
     void setParticleVelocities(const double pv[]) {
@@ -209,6 +212,7 @@ public:
         std::copy_n(bpp, num_dimensions * (num_particles + 1), best_particle_positions.begin());
         best_positions_initialized = true;
         cache_initialized = false; // the cached values belong to the old best positions
+        std::fill(cache_best_particle_inside.begin(), cache_best_particle_inside.end(), true); // every strip is given, the domain test comes with the new cache
     }
     //! \brief Sets the best position per particle.
     void setBestParticlePositions(const std::vector<double> &bpp) {
@@ -216,6 +220,7 @@ public:
         best_particle_positions = bpp;
         best_positions_initialized = true;
         cache_initialized = false; // the cached values belong to the old best positions
+        std::fill(cache_best_particle_inside.begin(), cache_best_particle_inside.end(), true); // every strip is given, the domain test comes with the new cache
     }
     //! \brief Sets the best position per particle, allows for a move.
     void setBestParticlePositions(std::vector<double> &&bpp) {
@@ -223,6 +228,7 @@ public:
         best_particle_positions = std::move(bpp);
         best_positions_initialized = true;
         cache_initialized = false; // the cached values belong to the old best positions
+        std::fill(cache_best_particle_inside.begin(), cache_best_particle_inside.end(), true); // every strip is given, the domain test comes with the new cache
     }
 
     //! \brief Clear the previously best known particle velocities.
@@ -238,7 +244,8 @@ public:
         std::fill(cache_particle_fvals.begin(), cache_particle_fvals.end(), 0.0);
         std::fill(cache_particle_inside.begin(), cache_particle_inside.end(), false);
         std::fill(cache_best_particle_fvals.begin(), cache_best_particle_fvals.end(), 0.0);
-        std::fill(cache_best_particle_inside.begin(), cache_best_particle_inside.end(), false);
+        // cache_best_particle_inside is kept: it is the only record of which best positions were ever set (a strip that was
+        // never set holds zeros, not a visited point); the domain test is repeated when the cache is rebuilt
     }
 
     /*! \brief Randomly initializes all of the particle positions and velocities inside of a box.
